@@ -20,7 +20,7 @@ META = dict(
          "the explored environment.",
 )
 PIPES = ["probe", "pw_multislice", "stem", "prism", "interpolate", "diffraction", "gaussian", "lazy_multislice",
-         "eager_fp_multislice", "eager_fp_stem", "propagator_reuse", "prism_fp"]
+         "eager_fp_multislice", "eager_fp_stem", "propagator_reuse", "prism_fp", "fftn_axes", "interpolate3d"]
 
 
 def configs(quick):
@@ -29,6 +29,8 @@ def configs(quick):
         out.append({"fft": "numpy", "precision": prec})
         for eff, th in itertools.product(("FFTW_ESTIMATE", "FFTW_MEASURE") if quick else ("FFTW_ESTIMATE", "FFTW_MEASURE", "FFTW_PATIENT"), (1, 2)):
             out.append({"fft": "fftw", "precision": prec, "fftw.planning_effort": eff, "fftw.threads": th})
+    if quick:  # the patient planner measures candidate plans on the arrays it is given: one configuration of it in the quick tier too
+        out.append({"fft": "fftw", "precision": "float32", "fftw.planning_effort": "FFTW_PATIENT", "fftw.threads": 1})
     return out
 
 
@@ -58,6 +60,26 @@ def pipeline(name):
     if name == "prism_fp":
         S = abtem.SMatrix(potential=U.potential("fp2", gpts=(24, 18)), semiangle_cutoff=20, energy=1e5, interpolation=1, downsample=False)
         return np.asarray(S.reduce(scan=abtem.CustomScan([[1.0, 0.5], [2.2, 1.4]]), lazy=False).array)
+    if name == "fftn_axes":  # the n-dimensional transforms over EVERY contiguous trailing / leading / inner axis subset of 3-, 4- and 5-D arrays
+        from abtem.core.fft import fftn, ifftn
+        from abtem.core.utils import get_dtype
+
+        r = rng("c38", name)
+        outs = []
+        for shape in ((4, 5, 6), (2, 4, 5, 6), (2, 3, 4, 5, 6)):
+            x = (r.normal(size=shape) + 1j * r.normal(size=shape)).astype(get_dtype(complex=True))
+            nd = len(shape)
+            for k in (2, 3):
+                for axes in (tuple(range(nd - k, nd)), tuple(range(-k, 0)), tuple(range(0, k))):
+                    outs.append(np.ravel(np.asarray(fftn(x.copy(), axes=axes))) / np.sqrt(x.size))
+                    outs.append(np.ravel(np.asarray(ifftn(x.copy(), axes=axes))) * np.sqrt(x.size))
+        return np.concatenate(outs)
+    if name == "interpolate3d":
+        from abtem.core.fft import fft_interpolate
+
+        r = rng("c38", name)
+        x = (r.normal(size=(2, 4, 5, 6)) + 1j * r.normal(size=(2, 4, 5, 6))).astype(np.complex64)
+        return np.concatenate([np.ravel(fft_interpolate(x.copy(), s_)) for s_ in ((6, 5, 6), (4, 9, 7), (3, 4, 4))])
     if name == "propagator_reuse":  # one propagator object, four different same-shaped wave arrays in a row, in place and not
         from abtem.multislice import FresnelPropagator
 
